@@ -253,8 +253,22 @@ def check_assembly(case, ctx):
         conn.update(xcte1=pos1, xcte2=pos2)
     ctx.nontrivial = not case['p1_first']
     ctx.label('kind:' + kind, 'p1-first' if case['p1_first'] else 'p2-first', 'three-panels' if case['third'] else 'two-panels')
+    conns = [conn]
+    pos1b = pos2b = None
+    if case.get('second_conn') and pos1 is not None:
+        # a second interface of the same kind between the same ordered pair of panels, along another line (the two seams of a cylinder
+        # made of two panels): the penalty matrix is the sum over the listed connections
+        L1, L2 = (pd1.b, pd2.b) if kind in ('SSycte', 'BFycte') else (pd1.a, pd2.a)
+        pos1b, pos2b = case['pos1b'] * L1, case['pos2b'] * L2
+        conn_b = dict(conn)
+        if kind in ('SSycte', 'BFycte'):
+            conn_b.update(ycte1=pos1b, ycte2=pos2b)
+        else:
+            conn_b.update(xcte1=pos1b, xcte2=pos2b)
+        conns.append(conn_b)
+        ctx.label('two-connections-same-pair')
     with package(name):
-        ass = PanelAssembly(plist, [conn])
+        ass = PanelAssembly(plist, conns)
         size = ass.get_size()
         K = dense(ass.get_k0_conn())
         ctype = {'SSycte': 'ycte', 'BFycte': 'ycte', 'SSxcte': 'xcte', 'BFxcte': 'xcte', 'SB': 'bot-top'}[kind]
@@ -267,6 +281,11 @@ def check_assembly(case, ctx):
         axis = 'y' if kind in ('SSycte', 'BFycte') else 'x'
         (a0, a1), (b0, b1) = _eval_abs(pd1, axis, pos1), _eval_abs(pd2, axis, pos2)
         floor = 50 * 2.2e-16 * (pd1.a if axis == 'y' else pd1.b) * (kt * (a0 + b0) ** 2 + (kr or 0.) * (a1 + b1) ** 2)   # see check_kernel
+        if pos1b is not None:
+            Kref = Kref + _embed2(ref_conn(kind, pd1, pd2, kt, kr if kr is not None else 0., pos1b, pos2b, dsb), pd1.ndof, pd2.ndof,
+                                  p1.row_start, p2.row_start, size)
+            (a0, a1), (b0, b1) = _eval_abs(pd1, axis, pos1b), _eval_abs(pd2, axis, pos2b)
+            floor += 50 * 2.2e-16 * (pd1.a if axis == 'y' else pd1.b) * (kt * (a0 + b0) ** 2 + (kr or 0.) * (a1 + b1) ** 2)
     ctx.close(name, K, Kref, TOL, bucket=name + ('' if case['p1_first'] else '.p1-after-p2'), atol=floor)
     ctx.close(name + '.symmetry', K, K.T, 1e-13, bucket=name + '.symmetry')
     # penalty constants: symmetric in the two panels, degree one in the moduli
@@ -336,7 +355,8 @@ def _pair(draw, tier='quick'):
             'kt': draw(gen.logfl(1e3, 1e12)), 'kr': draw(gen.logfl(1e0, 1e8)), 'p1_first': draw(st.booleans()),
             'gap': [draw(st.sampled_from([0, 0, 3])), draw(st.sampled_from([0, 0, 5])), draw(st.sampled_from([0, 2]))],
             'dsb': draw(gen.fl(1e-4, 1e-2)), 'dseed': draw(st.integers(0, 2 ** 20)),
-            'third': draw(st.booleans()), 'third_pos': draw(st.integers(0, 2)), 'escale': draw(gen.fl(0.1, 10.)), 'has_defect_key': draw(st.booleans())}
+            'third': draw(st.booleans()), 'third_pos': draw(st.integers(0, 2)), 'escale': draw(gen.fl(0.1, 10.)), 'has_defect_key': draw(st.booleans()),
+            'second_conn': draw(st.sampled_from([False, False, True])), 'pos1b': draw(posg), 'pos2b': draw(posg)}
 
 
 SUBS = [
